@@ -102,6 +102,11 @@ func (c12) Plan(tier string, seed int64) []core.Scenario {
 	for i := 0; i < 3; i++ {
 		out = append(out, core.Sc("revalias").WithN("m", 2+i).WithN("rot", i))
 	}
+	for f := 1; f < len(c01Formatters); f++ {
+		for order := 0; order < 2; order++ {
+			out = append(out, core.Sc("revformat").WithN("fmt", f).WithN("order", order))
+		}
+	}
 	ct, _ := catClientType()
 	per := 6
 	for i := 0; i < ct.NumField(); i += per {
@@ -126,6 +131,8 @@ func (p c12) Run(sc core.Scenario) core.Result {
 		p.dynamic(sc, r)
 	case "revalias": // client-side (reverse) handlers resolve aliases through their own table only
 		c16{}.aliasIsolation(sc, r)
+	case "revformat": // reverse direction under a formatter shared by client and server
+		c16{}.revFormat(sc, r)
 	}
 	return r.Result()
 }
